@@ -69,7 +69,17 @@ def gen(rng, tier):
                 d = rng.randrange(1, 10)
                 cases.append(Case("hotpdg %s %d" % (hexs(dg), d), "hotpdg len=%d %s" % (ln, "short" if ln < off + 4 else "ok off=%d hi=%02x" % (off, hi)), ln >= off + 4,
                                   spec=("spec.hotpdg %s %d" % (hexs(dg), d)) if ln >= off + 4 else None))
+    # every API family once during static initialisation of the driver (before the library's own dynamic initialisers have run)
+    cases.append(Case("staticinit", "static-initialisation battery", True, spec="staticinit"))
     return cases
+
+def extra(ctx):
+    # HOTP/TOTP values after a failed call / after a call with another key (a per-thread keyed-state cache must not carry over)
+    rng = ctx["rng"]; lines = []
+    for t in HASHES:
+        lines.append("oom hotp %s %s" % (t, hexs(contents(rng, 20, "rand"))))
+        lines.append("oom totpvalid %s %s" % (t, hexs(contents(rng, BS[t] + 5, "rand"))))
+    return oom_extra(ctx, lines, "HOTP/TOTP")
 
 def key(case, impl, model):
     p = case.line.split(); return " ".join(p[:2]) + " " + " ".join(p[3:])
